@@ -106,12 +106,20 @@ class Thread
 	typedef pthread_t Handle_;
 #endif
 	Handle_ _thread;
-	volatile bool _threadFinished;
+	// the finished flag lives in a small shared block: copies of a started Thread (which take over its handle)
+	// and the running function thread refer to the same flag, whatever happens to the original object
+	struct State_ {
+		volatile bool finished;
+		AtomicCount rc;
+		State_() : finished(false), rc(1) {}
+	};
+	State_* _state;
+	static void releaseState(State_* s) { if (--s->rc == 0) delete s; }
 private:
 	template<class F>
 	struct Context {
 		F f;
-		Thread* t;
+		State_* t;
 		volatile bool ready;
 		int i0, i1, s;
 	};
@@ -159,7 +167,7 @@ private:
 #ifdef ASL_VERIF
 		asl_verif_point(14, (void*)pthread_self());
 #endif
-		t->_threadFinished = true;
+		t->_state->finished = true;
 		t->ended(); // last use of t: the object may delete itself here
 		return 0;
 	}
@@ -179,7 +187,8 @@ private:
 #ifdef ASL_VERIF
 		asl_verif_point(14, (void*)pthread_self());
 #endif
-		s.t->_threadFinished = true;
+		s.t->finished = true;
+		releaseState(s.t);
 	}
 	template<class Func>
 	static void ASL_THREADFUNC_API beginfN(void* p)
@@ -200,23 +209,40 @@ private:
 #ifdef ASL_VERIF
 		asl_verif_point(14, (void*)pthread_self());
 #endif
-		s.t->_threadFinished = true;
+		s.t->finished = true;
+		releaseState(s.t);
 	}
 #endif
 public:
 	Thread()
 	{
 		_thread = 0;
-		_threadFinished = false;
+		_state = new State_;
 	}
 	Thread(const Thread& t) : _thread(t._thread)
 	{
-		_threadFinished = false;
+		if (t._thread != 0) { // a started thread: the copy takes over the handle and shares the finished flag
+			_state = t._state;
+			++_state->rc;
+		}
+		else
+			_state = new State_;
 		const_cast<Thread&>(t)._thread = 0;
 	}
 	void operator=(const Thread& t)
 	{
-		_threadFinished = t._threadFinished;
+		if (this == &t)
+			return;
+		State_* old = _state;
+		if (t._thread != 0) {
+			_state = t._state;
+			++_state->rc;
+		}
+		else {
+			_state = new State_;
+			_state->finished = t._state->finished;
+		}
+		releaseState(old);
 		_thread = t._thread;
 		const_cast<Thread&>(t)._thread = 0;
 	}
@@ -229,6 +255,7 @@ public:
 			pthread_detach(_thread);
 #endif
 		}
+		releaseState(_state);
 	}
 	/** The thread procedure. Reimplement this function to create new threads */
 	virtual void run()
@@ -277,7 +304,7 @@ public:
 	/**
 	Returns true if this thread has finished
 	*/
-	bool finished() const { return _threadFinished; }
+	bool finished() const { return _state->finished; }
 	/**
 	Returns the number of logical processors or cores
 	*/
@@ -299,9 +326,10 @@ public:
 	Thread(const F& f)
 	{
 		_thread = 0;
-		_threadFinished = false;
+		_state = new State_;
 		// started in place: going through start() and a temporary copy reset the finished flag
-		Context<F> s = { f, this, false, 0, 0, 0 };
+		Context<F> s = { f, _state, false, 0, 0, 0 };
+		++_state->rc; // the running thread's reference, released by beginf
 		run((Function_)Thread::beginf<F>, (void*)&s);
 #ifdef ASL_VERIF
 		while (!s.ready) asl_verif_point(13, &s);
@@ -311,7 +339,8 @@ public:
 	template<class Func>
 	static Thread start(const Func& f, Thread* t)
 	{
-		Context<Func> s = { f, t, false, 0, 0, 0 };
+		Context<Func> s = { f, t->_state, false, 0, 0, 0 };
+		++t->_state->rc;
 		t->run((Function_)Thread::beginf<Func>, (void*)&s);
 #ifdef ASL_VERIF
 		while (!s.ready) asl_verif_point(13, &s);
@@ -347,7 +376,8 @@ public:
 		for (int i = 0; i<n; i++)
 		{
 			threads << new Thread;
-			Context<F> s = { f, threads.last(), false, i0 + i, i1, n };
+			Context<F> s = { f, threads.last()->_state, false, i0 + i, i1, n };
+			++threads.last()->_state->rc;
 			threads.last()->run((Function_)Thread::beginfN<F>, (void*)&s);
 #ifdef ASL_VERIF
 			while (!s.ready) asl_verif_point(13, &s);
